@@ -341,7 +341,7 @@ func init() {
 		Level: "exploration",
 		Rule: "structural-invariant monitor over the artefact of every compilation, at the quiescent point 'Parse returned': an independent decoder + CFG dataflow checker (instructions tile the code, RET last and only there, operand kinds, jump targets on boundaries, equal operand/block depth on all in-edges, slots live, depth 0 at RET) over the program's in-memory parts; " +
 			"cross-checked dynamically through the VM hook (every executed pc is a boundary, tos/blockTos equal the static values), each program also executed with flipped switch variables so that short-circuit jumps are seen taken and not taken. " +
-			"distinct = hash of code+constants; non-trivial = the program contains >= 1 jump",
+			"distinct = hash of code+constants; non-trivial = the program contains >= 1 jump Fixed boundary programs: > 240 locals and constants, 2600 constants (operand 2287/2288), skipped operands of 65524..65540 code bytes for and / or / and-then-or / or-chains, chains of 2..40 and/or operands.",
 		Assumptions:   []string{"the opcode table of internal/bc (operand shapes, stack effects) is the documented instruction set; it is validated against the real VM by the dynamic cross-check"},
 		MinNontrivial: 500,
 		Run: func(c *core.Ctx) {
